@@ -277,6 +277,10 @@ func runFileSink(rc *RunCtx, prop string, crash bool, faults bool) {
 				if !seqMode && tp.Choose(12, "noformat") == 0 {
 					e.NoFormat = true
 				}
+				if !e.NoFormat && tp.Choose(14, "empty-entry") == 0 {
+					e.Data = []byte{} // the entry for the format exists and is empty
+					pd = append(pd, "(next write is empty)")
+				}
 				events = append(events, e)
 				prog = append(prog, step{kind: "write", ev: e})
 				pd = append(pd, fmt.Sprintf("write#%d(%dB)", e.ID, n))
@@ -400,6 +404,11 @@ func runFileSink(rc *RunCtx, prop string, crash bool, faults bool) {
 	}
 	pos := map[int][2]int{} // event -> (file order, record index)
 	for _, e := range events {
+		if len(e.Data) == 0 {
+			// an event whose formatted entry is empty: nothing to find in the files; what it
+			// does to rotation and the counters is judged by C15's model
+			continue
+		}
 		recs := att[e.ID].recs
 		acked := e.Returned && e.Err == nil
 		full, partial := 0, 0
